@@ -7,6 +7,7 @@ python3 - <<'PY' || echo "harness build failed (checks will report it)"
 import sys
 sys.path.insert(0, "driver")
 import kv
+kv.build_harness(("dev",), ("hooks",))   # variant with the verif-hooks feature (C10, C11)
 kv.build_harness(("dev", "nochk"))
 PY
 (cd coq && ./gen.sh && timeout 3000 make -j16 >/dev/null 2>&1) || echo "coq build failed (checks will report it)"
